@@ -16,8 +16,8 @@ VERIF = os.path.dirname(os.path.dirname(os.path.abspath(__file__)))
 # name: (property ids expected to detect, file, old, new, description)
 MUTANTS = {
     "c01_upper_exclusive": (["C01"], "cutplace/ranges.py",
-                            "                elif (value >= lower) and (value <= upper):\n                    is_valid = True\n                item_index += 1\n            if not is_valid:\n                raise errors.RangeValueError(\"%s is %r but must be within range: %s\"",
-                            "                elif (value >= lower) and (value < upper):\n                    is_valid = True\n                item_index += 1\n            if not is_valid:\n                raise errors.RangeValueError(\"%s is %r but must be within range: %s\"",
+                            "                elif (value >= lower) and (value <= upper):\n                    is_valid = True\n                item_index += 1\n            if not is_valid:\n                try:\n                    value_text = \"%r\" % (value,)",
+                            "                elif (value >= lower) and (value < upper):\n                    is_valid = True\n                item_index += 1\n            if not is_valid:\n                try:\n                    value_text = \"%r\" % (value,)",
                             "Range.validate: upper limit of a closed item exclusive"),
     "c01_lower_limit_first_item": (["C01"], "cutplace/ranges.py",
                                    "                elif (self._lower_limit is not None) and (lower_item < self._lower_limit):\n                    self._lower_limit = lower_item\n\n                if upper_item is None:\n                    self._upper_limit = None\n                elif (self._upper_limit is not None) and (upper_item > self._upper_limit):\n                    self._upper_limit = upper_item\n\n    @property\n    def description",
